@@ -25,6 +25,9 @@
 //!    column x {delete, updates assigning the focused column} x {none, hash, btree, both-first}; after
 //!    the mutation the whole table is read back (frame) and probe selects re-check every index.
 //!  * stage D (router text): 24 three-row tables x text-expressible atoms and a few And/Or.
+//!  * stage E (lane tables): the vectorised filters process groups of four rows and a scalar tail, so tables
+//!    of 4 / 5 / 9 rows (thorough: 4/5/8/9/13) whose numeric column holds b everywhere except a at one
+//!    position, for all a, b of the alphabet and all positions, x all atoms, scan vs columnar vs count.
 //! Thorough adds depth-3 conditions and seeded random 5-row tables with two extra tiny floats
 //! (not exhaustive).
 //!
@@ -1151,6 +1154,52 @@ fn stage_b(rep: &mut Rp, pool: &mut Pool, conds: &[Condition], tables: &[Vec<Val
     }
 }
 
+/// "lane" tables for the vectorised strategy: the columnar filters work on groups of four rows plus a scalar tail, so
+/// tables of 4, 5 and 9 rows (one full group; a group + tail; two groups + tail): every table that holds value `b` in
+/// the focused numeric column everywhere except value `a` at one position p (all a, b of the column alphabet, all p),
+/// x every atom over the column alphabet, read by scan / columnar / count on an unindexed table.
+fn lane_tables(k: usize, sizes: &[usize]) -> Vec<Vec<Vals>> {
+    let al: Vec<Vec<Value>> = (0..3).map(alpha).collect();
+    let mut out = vec![];
+    let mut q = 0usize;
+    for &n in sizes {
+        for b in 0..al[k].len() {
+            for a in 0..al[k].len() {
+                for p in 0..n {
+                    if a == b && p > 0 { continue; }
+                    q += 1;
+                    let rows: Vec<Vals> = (0..n)
+                        .map(|r| {
+                            let mut row: Vals = [Value::Null, Value::Null, Value::Null];
+                            for (j, slot) in row.iter_mut().enumerate() {
+                                *slot = if j == k { al[j][if r == p { a } else { b }].clone() } else { al[j][(q + 3 * r + j) % al[j].len()].clone() };
+                            }
+                            row
+                        })
+                        .collect();
+                    out.push(rows);
+                }
+            }
+        }
+    }
+    out
+}
+
+fn stage_e(rep: &mut Rp, pool: &mut Pool, sizes: &[usize]) {
+    let ops = [Op::Select, Op::Columnar, Op::Count];
+    for k in 0..2 {
+        let conds = atoms(COLS[k], &alpha(k));
+        for rows in lane_tables(k, sizes) {
+            let cfg = Cfg::new(Idx::None, false, false);
+            with_world(rep, pool, &rows, cfg, &mut |rep, w| {
+                for c in &conds {
+                    do_reads(rep, w, &rows, cfg, c, &ops);
+                }
+            });
+        }
+    }
+}
+
 fn stage_c(rep: &mut Rp, pool: &mut Pool, n: usize) {
     let cfgs =
         [Cfg::new(Idx::None, false, false), Cfg::new(Idx::Hash, false, false), Cfg::new(Idx::Btree, false, false), Cfg::new(Idx::Both, true, false)];
@@ -1286,7 +1335,9 @@ pub fn run(tier: Tier, seed: u64) -> Report {
              ops select/select_columnar/count/5 limit-offset pairs (+ sum/avg/min/max/select_iter/streaming on none & both); \
              B: all And/Or of two atoms (6 ops x i{{Null,0}} f{{NaN,-0.0}} s{{'a'}}) on 30 one-row + 30 three-row tables over i{{Null,0,1}}xf{{Null,NaN,-0.0,0.0,1.5}}xs{{Null,'a'}} x 4 index configs; \
              C: update/delete on focused tables of 1..{} rows x all atoms of the focused column x {{delete, 2-3 updates}} x {{none,hash,btree,both-first}}, whole-table read-back + 29-35 probe selects on indexed configs; \
-             D: router text (execute, execute_parsed) on 24 mixed 3-row tables x {{none,both}} x 102 atoms + 98 And/Or{}",
+             D: router text (execute, execute_parsed) on 24 mixed 3-row tables x {{none,both}} x 102 atoms + 98 And/Or; \
+             E: lane tables for the vectorised filters (groups of four rows + scalar tail): {} rows, numeric column = b everywhere except a at one position (all a, b of the alphabet, all positions) x all atoms of the column x select/select_columnar/count, no index{}",
+            if thorough { "4/5/8/9/13" } else { "4/5/9" },
             n - 1,
             if thorough {
                 "; plus depth-3 And/Or over 12 atoms (13824 conditions) and 1500 seeded random 5-row tables with f alphabet + {MIN_POSITIVE,1e-17} (not exhaustive)"
@@ -1310,6 +1361,7 @@ pub fn run(tier: Tier, seed: u64) -> Report {
     stage_b(&mut rep, &mut pool, &pair_conds(&pair_atoms()), &pair_tables());
     stage_c(&mut rep, &mut pool, n - 1);
     stage_d(&mut rep, &mut pool);
+    stage_e(&mut rep, &mut pool, if thorough { &[4, 5, 8, 9, 13] } else { &[4, 5, 9] });
     rep.rep.sample(read_case(
         &[[Value::Int(0), Value::Float(-0.0), Value::Null], [Value::Null, Value::Float(f64::NAN), Value::String("é".into())]],
         Cfg::new(Idx::Both, true, false),
